@@ -8,6 +8,8 @@ Driver commands of the pure-core group added after the first round:
 import EngineModel.Driver.Values
 import EngineModel.Basic.F64
 import EngineModel.Pure.BeatgridRat
+import EngineModel.Pure.Detect
+import EngineModel.Gen.DetectGen
 
 open EngineModel EngineModel.Text
 
@@ -58,10 +60,32 @@ def bgWindow (a : List String) : String :=
     if !okGrid n g then "bad-op range" else
     "ok " ++ showGridQ (window ratNum g n)
 
+/-! ### C13: `plant2 <presence> <tables> <maj> <min> <pat> <numeric>` -/
+open Pure.Detect in
+def worldOf (a : List String) : Option World :=
+  match a with
+  | [pres, tc, ma, mi, pa, nu] =>
+    match tc.toInt?, ma.toInt?, mi.toInt?, pa.toInt? with
+    | some tc, some ma, some mi, some pa =>
+      some ⟨!pres.contains 'X', pres.contains 'L', pres.contains 'P', pres.contains 'D',
+        tc, ma, mi, pa, nu == "1"⟩
+    | _, _, _, _ => none
+  | _ => none
+
+open Pure.Detect in
+def plant2 (spec : Bool) (a : List String) : String :=
+  match worldOf a with
+  | none => "bad-op args"
+  | some w =>
+    if spec then (specLoad w).render
+    else (LoadOutcome.ofExcept (Gen.Detect.loadDatabaseGen w)).render
+
 def pureTable (cmd : String) (args : List String) : Option String :=
   match cmd, args with
   | "bg.normq", a => some (bgNormQ a)
   | "bg.window", a => some (bgWindow a)
+  | "plant2", a => some (plant2 false a)
+  | "spec.plant2", a => some (plant2 true a)
   | _, _ => none
 
 end Drv
